@@ -172,6 +172,17 @@ int cif_loop_set_category(cif_loop_tp *loop, const UChar *category) {
     cif_container_tp *container = loop->container;
     UChar *category_temp;
 
+    if ((container != NULL) && (container->cif != NULL)) {
+        cif_tp *cif = container->cif;
+
+        /*
+         * Create any needed prepared statements, or prepare the existing one(s)
+         * for re-use, exiting this function with an error on failure.  This is done
+         * first so that no resources need to be released in the event of failure.
+         */
+        PREPARE_STMT(cif, set_loop_category, SET_CATEGORY_SQL);
+    }
+
     if ((category != NULL) && (*category == 0)) {
         return CIF_RESERVED_LOOP;
     } else {
@@ -215,12 +226,6 @@ int cif_loop_set_category(cif_loop_tp *loop, const UChar *category) {
             FAILURE_HANDLING;
             STEP_HANDLING;
 
-            /*
-             * Create any needed prepared statements, or prepare the existing one(s)
-             * for re-use, exiting this function with an error on failure.
-             */
-            PREPARE_STMT(cif, set_loop_category, SET_CATEGORY_SQL);
-
             /* set the category */
             if ((sqlite3_bind_int64(cif->set_loop_category_stmt, 2, container->id) == SQLITE_OK)
                     && (sqlite3_bind_int64(cif->set_loop_category_stmt, 3, loop->loop_num) == SQLITE_OK)
@@ -253,7 +258,7 @@ int cif_loop_set_category(cif_loop_tp *loop, const UChar *category) {
             }
 
             /* failed -- clean up */
-            DROP_STMT(cif, get_loop_names);
+            DROP_STMT(cif, set_loop_category);
             free(category_temp);
 
             FAILURE_TERMINUS;
